@@ -505,3 +505,45 @@ class TSLAttr_get_step_ops:
 def rt_stride_of(m, d):
     from pyvc.api import rt_stride
     return rt_stride(m, d)
+
+
+@contract
+class TSLAttr_get_step_ops_strided_mixed_depths:
+    """a memref with a STRIDED layout (run-time strides) seen through a tsl whose dimensions are tiled to DIFFERENT depths
+    (what TransformDMA builds from the partner's tile bounds): the run-time stride of dimension d belongs to the
+    INNERMOST level of that dimension, the outer levels follow by multiplication with the inner bounds"""
+    target = "snaxc.dialects.tsl.TiledStridedLayoutAttr.get_step_ops"
+    shapes = [dict(depths=d, bits=b) for d in ((2, 1), (1, 2), (2, 2), (3, 1)) for b in (8, 32)]
+    total = True
+    compare_ret = False
+
+    def args(sh, sym):
+        ts = []
+        for d, dep in enumerate(sh["depths"]):
+            strides = []
+            for k in range(dep):
+                strides.append(Stride(None, None if k == 0 else sym.int(f"b{d}_{k}", 1)))
+            ts.append(TiledStride(strides))
+        tsl = TiledStridedLayout(ts, offset=0)
+        return [TiledStridedLayoutAttr(tsl), mk_memref_for(sym, tsl, sh["bits"], True)]
+
+    def run(sh, a):
+        attr, m = a
+        _, bound_ops = attr.get_bound_ops(m)
+        return (bound_ops, attr.get_step_ops(bound_ops, m, True))
+
+    def ensures(sh, a, ret):
+        attr, m = a
+        bound_ops, (ops, mapping) = ret
+        el = sh["bits"] // 8
+        want = [(d, k) for d, dep in enumerate(sh["depths"]) for k in range(dep)]
+        check("one step op per (dim, depth)", sorted(mapping.keys()) == want)
+        for d, dep in enumerate(sh["depths"]):
+            if (d, dep - 1) in mapping:
+                check(f"dim {d}: the innermost level steps by the run-time stride of that dimension (in bytes)", den(mapping[(d, dep - 1)]) == rt_stride_of(m, d) * el)
+            for k in reversed(range(dep - 1)):
+                if (d, k) in mapping and (d, k + 1) in mapping:
+                    check(f"dim {d}: level {k} steps by level {k + 1}'s step times its bound", den(mapping[(d, k)]) == den(mapping[(d, k + 1)]) * den(bound_ops[(d, k + 1)]))
+
+    def canary(sh, a, ret):
+        check("canary: every step is 1", all(den(o) == 1 for o in ret[1][1].values()))
